@@ -43,6 +43,7 @@ struct Profile {
   bool cycles = false;                            // C17
   bool damage = false;                            // C13 storage damage ops
   bool enumerate_faults = false;                  // C07: probe run then one fault per index
+  bool small_graph = false;                       // C04S: one full -j0 build of a small plain DAG
 };
 Profile GetProfile(const std::string& name, bool thorough);
 
@@ -126,6 +127,8 @@ struct RunStats {
   uint64_t full_hash = 0;              // everything observable: traces, outputs (determinism gate)
   std::set<uint64_t> plan_states;
   std::map<std::string, bool> nontrivial;   // property -> trigger met
+  std::string small_shape, small_order;     // C04 small-graph mode: scenario hash, completion order
+  long small_linext = 0;                    // number of linear extensions of its dependency order
 };
 
 struct World : SpawnHandler {
